@@ -195,6 +195,13 @@ class State:
             f = f.e
         if z3.is_true(f):
             return
+        # the same formula again (z3 terms are hash-consed: equal formulas have equal ids, and the path condition keeps
+        # every assumed formula alive): nothing to add -- instantiation helpers assume the same axioms many times
+        fid = f.get_id()
+        seen = self.__dict__.setdefault("_assumed_ids", set())
+        if fid in seen:
+            return
+        seen.add(fid)
         if _has_quantifier(f):
             self.has_quant = True
             self.n_quantified += 1
